@@ -340,3 +340,41 @@ def correlated_filter(f, target_pt):
     if not blocked:
         return None
     return lambda b, k: (b, k) not in blocked
+
+
+def forward_correlated_filter(f, pt):
+    """Edge filter for paths that *start* at pt: pt is guarded by simple tests of local variables (V, !V, V == 0 ...);
+    the first later branch on the same variable — reached from pt without an intervening definition of V — must take
+    the same outcome.  Only such 'first encounter' branches are constrained, so the refinement stays sound in loops."""
+    from . import rd
+    blocked = set()
+    for cond, k, b in f.cfg.controlling_branches(pt):
+        t = simple_test(f, cond)
+        if t is None:
+            continue
+        decl, tag = t
+        val = tag if k == 0 else ('z' if tag == 'nz' else 'nz')
+        # the guard must still describe the variable at pt: no definition between the guard and pt
+        cp = f.cfg.point_of(cond)
+        if cp is None or rd.reaching(f, decl, cp) != rd.reaching(f, decl, pt):
+            continue
+        defs = [d['point'] for d in rd.local_defs(f, decl) if d['point'] is not None]
+        for blk in f.cfg.blocks.values():
+            if blk.cond is None or len(blk.succ) != 2:
+                continue
+            t2 = simple_test(f, blk.cond)
+            if t2 is None or t2[0] != decl:
+                continue
+            cp2 = f.cfg.point_of(blk.cond)
+            if cp2 is None or not f.cfg.exists_path(pt, cp2):
+                continue
+            # a definition reachable from pt *before* this test would make the test see another value
+            if any(f.cfg.exists_path(pt, dp, avoid=[cp2]) and f.cfg.exists_path(dp, cp2) for dp in defs):
+                continue
+            for kk in (0, 1):
+                v = t2[1] if kk == 0 else ('z' if t2[1] == 'nz' else 'nz')
+                if v != val:
+                    blocked.add((blk.id, kk))
+    if not blocked:
+        return None
+    return lambda b, k: (b, k) not in blocked
